@@ -108,6 +108,10 @@ def shape(rng, tier="quick", allow_cyclic=True, max_rules=None):
     if not any(h == "N0" for h, _ in rules) and rng.random() < 0.9:
         rules.append(("N0", tuple(sym() for _ in range(rng.choice([1, 2])))))
     rng.shuffle(rules)
+    # keep runs cheap: the feature rules come on top of the random ones
+    cap = 14 if tier == "quick" else 18
+    if len(rules) > cap:
+        rules = rules[:cap]
     return "N0", V, rules, sorted(feats)
 
 
